@@ -1,0 +1,58 @@
+//! The ClientHello peek of the TLS listener.
+
+use super::session::Proto;
+use crate::tls_listener::{TlsAcceptor, TlsListener};
+use crate::{log_utils, utils};
+use std::io;
+use tokio::io::{AsyncRead, AsyncWrite};
+use tokio::net::TcpStream;
+
+#[derive(Debug, Clone, PartialEq, Eq)]
+pub enum Extraction {
+    Found(Vec<u8>),
+    NeedMoreData,
+    NotFound,
+}
+
+/// The real `TlsListener::extract_client_random` on a prefix of the client's first flight
+pub fn extract_client_random(data: &[u8]) -> Extraction {
+    crate::tls_listener::verif_extract_client_random(data)
+}
+
+pub trait Io: AsyncRead + AsyncWrite + Unpin + Send {}
+impl<T: AsyncRead + AsyncWrite + Unpin + Send> Io for T {}
+
+/// What the listener knows about a connection before it answers the handshake
+pub struct TlsPeek {
+    pub client_random: Option<Vec<u8>>,
+    pub sni: Option<String>,
+    pub alpn: Vec<Vec<u8>>,
+    acceptor: TlsAcceptor,
+}
+
+/// The real `TlsListener::listen`
+pub async fn listen(stream: TcpStream) -> io::Result<TlsPeek> {
+    let acceptor = TlsListener::new().listen(stream).await?;
+    Ok(TlsPeek {
+        client_random: acceptor.client_random(),
+        sni: acceptor.sni(),
+        alpn: acceptor.alpn(),
+        acceptor,
+    })
+}
+
+impl TlsPeek {
+    /// The real `TlsAcceptor::accept` with the certificate and key of a PEM file
+    pub async fn accept(self, protocol: Proto, pem_path: &str) -> io::Result<Box<dyn Io>> {
+        let stream = self
+            .acceptor
+            .accept(
+                protocol.into(),
+                utils::load_certs(pem_path)?,
+                utils::load_private_key(pem_path)?,
+                &log_utils::IdChain::empty(),
+            )
+            .await?;
+        Ok(Box::new(stream))
+    }
+}
